@@ -180,6 +180,8 @@ class Program(object):
         self.target = 'stream'      # 'stream' | 'path'
         self.reuse_objects = False  # one ChannelObject / GroupObject instance re-used with reassigned attributes
         self.precreate_empty = False  # path target: an empty file exists already and the first session appends to it
+        self.relative = False       # path target: the file is named relative to the working directory, which changes between
+        #                             creating the writer and entering its with-block
         self.container = 'list'     # how the objects of a segment are handed over: list | tuple | generator | iter
         self.mutate_after = False   # the caller empties its property dicts as soon as write_segment has returned
         self.fname = 'prog.tdms'    # path target: file name; the index file is documented to be <path>_index whatever the name
@@ -197,7 +199,7 @@ class Program(object):
         src = None if self.source is None else [(n, t, len(v)) for n, t, v in self.source['channels']]
         return {'version': self.version, 'index': self.index, 'target': self.target, 'sessions': out, 'source_file_channels': src,
                 'reuse_objects': self.reuse_objects, 'precreate_empty': self.precreate_empty, 'file_name': self.fname,
-                'container': self.container, 'mutate_after': self.mutate_after}
+                'container': self.container, 'mutate_after': self.mutate_after, 'relative_path': self.relative}
 
 
 def gen_program(rng, types_mod, max_sessions=3, max_segments=5, max_objects=5, lens=(0, 1, 2, 3, 7, 20, 50)):
@@ -213,6 +215,7 @@ def gen_program(rng, types_mod, max_sessions=3, max_segments=5, max_objects=5, l
     prog.precreate_empty = prog.target == 'path' and rng.random() < 0.25
     prog.container = rng.choice(['list', 'list', 'tuple', 'generator', 'iter'])
     prog.mutate_after = rng.random() < 0.3
+    prog.relative = prog.target == 'path' and not prog.precreate_empty and rng.random() < 0.2
     prog.fname = rng.choice(['prog.tdms'] * 5 + ['PROG.TDMS', 'capture.dat', 'noextension', 'log.2024.tdms', 'a b.tdms', 'x.tdms.bak'])
     big_budget = [1] if rng.random() < 0.01 else []       # rarely: one array sized at a power-of-two byte boundary
     for _ in range(rng.randint(1, max_sessions)):
@@ -355,6 +358,14 @@ def run_program(prog, nptdms, tmpdir, stream_factory=io.BytesIO):
         if os.path.isfile(os.path.join(tmpdir, stale)):
             os.remove(os.path.join(tmpdir, stale))      # nothing of an earlier program is left: an index found later was written by this one
     path = os.path.join(tmpdir, getattr(prog, 'fname', 'prog.tdms'))
+    relative = getattr(prog, 'relative', False) and prog.target == 'path'
+    if relative:
+        import shutil
+        dir_a, dir_b = os.path.join(tmpdir, 'wd-a'), os.path.join(tmpdir, 'wd-b')
+        for d_ in (dir_a, dir_b):
+            shutil.rmtree(d_, ignore_errors=True)
+            os.makedirs(d_)
+        cwd0 = os.getcwd()
     if prog.precreate_empty and prog.target == 'path':
         open(path, 'wb').close()
         if prog.index:
@@ -364,7 +375,23 @@ def run_program(prog, nptdms, tmpdir, stream_factory=io.BytesIO):
     istream = stream_factory() if prog.index else None
     source = build_source(prog, nptdms) if prog.source is not None else None
     for si, sess in enumerate(prog.sessions):
-        if prog.target == 'path':
+        if relative:
+            # the writer is created in one working directory and opened in another: data and index file belong together
+            try:
+                os.chdir(dir_a)
+                w = W(prog.fname, mode='w' if si == 0 else 'a', version=prog.version, index_file=bool(prog.index))
+                os.chdir(dir_b)
+                w.__enter__()
+                w.__exit__(None, None, None)
+            finally:
+                os.chdir(cwd0)
+            where = [d_ for d_ in (dir_a, dir_b) if os.path.exists(os.path.join(d_, prog.fname))]
+            if len(where) != 1 or (prog.index and not os.path.exists(os.path.join(where[0], prog.fname + '_index'))) or \
+                    any(os.path.exists(os.path.join(d_, prog.fname + '_index')) for d_ in (dir_a, dir_b) if d_ not in where):
+                log.append((si, None, 'data-and-index-file-in-different-directories'))
+            path = os.path.join(where[0], prog.fname) if where else path
+            w = W(path, mode='a', version=prog.version, index_file=bool(prog.index))
+        elif prog.target == 'path':
             w = W(path, mode='w' if (si == 0 and not prog.precreate_empty) else 'a', version=prog.version, index_file=bool(prog.index))
         else:
             w = W(stream, version=prog.version, index_file=istream if prog.index else False)
@@ -440,6 +467,7 @@ def run_program(prog, nptdms, tmpdir, stream_factory=io.BytesIO):
                 os.truncate(path + '_index', repair[1])
             log.append((si, None, 'abandoned-after-refusal'))
             break
+    prog.result_path = path
     return _result(prog, path, stream, istream, shadow, log)
 
 
